@@ -157,9 +157,27 @@ func renderDef(d adef) []byte {
 		"categories": []M{{"uuid": c16Cat0, "name": cname, "exit_uuid": c16Exit0}, {"uuid": c16Cat1, "name": "Other", "exit_uuid": c16Exit1}}}
 	node0 := M{"uuid": c16Node0, "actions": []M{act}, "router": router,
 		"exits": []M{{"uuid": c16Exit0, "destination_uuid": c16Node1}, {"uuid": c16Exit1}}}
-	node1 := M{"uuid": c16Node1, "actions": []M{
+	node1Acts := []M{
 		{"uuid": c16Act1, "type": "add_contact_groups", "groups": []M{{"uuid": "b7cf0d83-f1c9-411c-96fd-c511a4cfa86d", "name": "Testers"}}},
-		{"uuid": c16Act2, "type": "set_run_result", "name": rname, "value": whText, "category": cname}},
+		{"uuid": c16Act2, "type": "set_run_result", "name": rname, "value": whText, "category": cname}}
+	// a SECOND message built from a channel template, in the same shape, with variables of its own (three of them)
+	vars2 := []string{"@fields.gender", "@contact.language second", "@urns.tel"}
+	act8 := M{"uuid": "1d2e3f40-0000-4000-8000-00000000a008", "type": "send_msg", "text": "Second @contact.name"}
+	switch d.Tpl {
+	case "v0":
+		act8["templating"] = M{"template": tplRef, "variables": vars2}
+	case "uuid":
+		act8["templating"] = M{"uuid": "1d2e3f40-0000-4000-8000-00000000b008", "template": tplRef, "variables": vars2}
+	case "comp":
+		act8["templating"] = M{"template": tplRef, "components": []M{{"uuid": "1d2e3f40-0000-4000-8000-00000000c008", "name": "body", "params": vars2}}}
+	case "flat":
+		act8["template"] = tplRef
+		act8["template_variables"] = vars2
+	}
+	if d.Tpl != "none" && d.Tpl != "" {
+		node1Acts = append(node1Acts, act8)
+	}
+	node1 := M{"uuid": c16Node1, "actions": node1Acts,
 		"exits": []M{{"uuid": c16Exit2, "destination_uuid": c16Node0}}}
 	nodes := []M{node0, node1}
 	if (d.Wh != "none" && d.Wh != "") || (d.Wht != "none" && d.Wht != "") {
@@ -386,11 +404,18 @@ func checkMigration(src []byte, dver, target, mid int, legacy bool, line *C16Lin
 		}
 	}
 	// expression rewrites preserve what templates evaluate to (13.3: @webhook -> @webhook.json)
-	if !legacy && dver < 3 && (target < 0 || target >= 3) {
+	if !legacy {
 		// every string of the definition that mentions the webhook, wherever it lives: what the old ones evaluate to
 		// under the old context is what the new ones evaluate to under the new context (as multisets: templating
 		// migrations move strings around)
 		oc, nc := whContexts()
+		// the context of a version: @webhook is the JSON body before 13.3 and an object with .json from then on
+		if dver >= 3 {
+			oc = nc
+		}
+		if target >= 0 && target < 3 {
+			nc = oc
+		}
 		env := envs.NewBuilder().Build()
 		isTpl := map[string]bool{}
 		for _, t := range flow.ExtractTemplates() {
@@ -421,7 +446,7 @@ func checkMigration(src []byte, dver, target, mid int, legacy bool, line *C16Lin
 		inSrc, inNew := strs(src), strs(m)
 		// a string that the migration left alone and that the loaded flow does not list as a template is not one (names)
 		notTemplate := func(t string) bool { return inSrc[t] && inNew[t] && !isTpl[t] }
-		evalAll := func(data []byte, ctx *types.XObject) []string {
+		evalAll := func(data []byte, ctx *types.XObject, onlyWebhook bool) []string {
 			var doc any
 			json.Unmarshal(data, &doc)
 			var out []string
@@ -439,7 +464,9 @@ func checkMigration(src []byte, dver, target, mid int, legacy bool, line *C16Lin
 						walk(e)
 					}
 				case string:
-					if strings.Contains(t, "webhook") && strings.Contains(t, "@") && !notTemplate(t) {
+					// every string that can be a template, not only those that mention the webhook: templating migrations move
+					// variables between members, and what an action carried before is what it carries afterwards
+					if strings.Contains(t, "@") && !notTemplate(t) && (!onlyWebhook || strings.Contains(t, "webhook")) {
 						r, _, _ := excellent.NewEvaluator().Template(env, ctx, t, nil)
 						out = append(out, r)
 					}
@@ -449,7 +476,21 @@ func checkMigration(src []byte, dver, target, mid int, legacy bool, line *C16Lin
 			sort.Strings(out)
 			return out
 		}
-		a, b := evalAll(src, oc), evalAll(m, nc)
+		// (i) the strings that mention the webhook, as multisets; (ii) every template string, as sets - a templating migration
+		// may repeat a base variable inside a translation that translated only some positions, it never loses one
+		a, b := evalAll(src, oc, true), evalAll(m, nc, true)
+		if reflect.DeepEqual(a, b) {
+			uniq := func(xs []string) []string {
+				out := []string{}
+				for i, x := range xs {
+					if i == 0 || x != xs[i-1] {
+						out = append(out, x)
+					}
+				}
+				return out
+			}
+			a, b = uniq(evalAll(src, oc, false)), uniq(evalAll(m, nc, false))
+		}
 		if !reflect.DeepEqual(a, b) {
 			line.TemplatesSame = false
 			for k := 0; k < len(a) && k < len(b); k++ {
@@ -459,7 +500,7 @@ func checkMigration(src []byte, dver, target, mid int, legacy bool, line *C16Lin
 				}
 			}
 			if line.Detail == "" {
-				line.Detail = fmt.Sprintf("%d templates mention the webhook before the migration, %d after", len(a), len(b))
+				line.Detail = fmt.Sprintf("%d template strings before the migration, %d after", len(a), len(b))
 			}
 		}
 	}
